@@ -174,7 +174,7 @@ func recvLimitRules(p *Prog, r *Report, rule string) {
 			r.Bad(rule, f.Name+"/reject-return", f.Pos(), "ANCHOR-MISSING: no `return nil, ErrTooLong`")
 			continue
 		}
-		res := ComparePredAssumingNil(rej[0].In.Block(), dom, as, spec)
+		res := ComparePredAssumingNil(predBlock(rej[0]), dom, as, spec)
 		if len(rej) > 1 {
 			// several rejecting exits (one per reason): their union is compared
 			res = PredResult{OK: true}
@@ -185,7 +185,7 @@ func recvLimitRules(p *Prog, r *Report, rule string) {
 					continue
 				}
 				seenB[e.In.Block()] = true
-				one := comparePredSetAssumingNil(e.In.Block(), dom, as)
+				one := comparePredSetAssumingNil(predBlock(e), dom, as)
 				if one.Undec != "" {
 					res.Undec = one.Undec
 				}
@@ -227,7 +227,7 @@ func recvLimitRules(p *Prog, r *Report, rule string) {
 			r.Bad(rule, f.Name+"/alloc-site", f.Pos(), "ANCHOR-MISSING: expected one NewMessage and one io.ReadFull")
 			continue
 		}
-		res2 := ComparePredAssumingNil(nm[0].In.Block(), dom, as, func(env map[string]int64) bool { return !spec(env) })
+		res2 := ComparePredAssumingNil(predBlock(nm[0]), dom, as, func(env map[string]int64) bool { return !spec(env) })
 		key = f.Name + "/alloc-only-if-accepted"
 		switch {
 		case res2.Undec != "":
